@@ -9,11 +9,24 @@ Case grammar (one line = one table + a list of queries, every query on a copy of
   t2 <x_dim> <y_dim> <f_dim> <list xs> <list ys> <table f> <nq> query2*     Interpolation_2D(xs, ys, f, ...)
   h2 ... (as t2)                                              the same, all queries on ONE live object
   t3 <x_dim> <y_dim> <f_dim> <table rows (x y f)> <nq> (I x y)*              Interpolation_2D(data_table, ...), I queries only
- query : I x | D k x | L x | G j m | K x | F x d
+  s1 <nseg> seg*        a SESSION on up to four slots (raw storage / heap objects that are re-used): every segment puts a table into a slot,
+                        copies another slot's object or resumes a slot, then sends its requests to the LIVE object of that slot:
+       seg = A <mode> <slot> <x_dim> <f_dim> <list xs> <list ys> <nq> query*      mode a: slot = Interpolation(...)   (assignment to the live object)
+                                                                                  mode p: destroy + construct in the same storage
+                                                                                  mode h: delete + new on the heap
+                                                                                  mode s: a function-local object (same stack address each time)
+           | C <dst> <src> <nq> query*      slot dst = slot src (copy assignment)
+           | R <slot> <nq> query*           no change of the slot
+  s2 <nseg> seg*        the same for Interpolation_2D (A <mode> <slot> <x_dim> <y_dim> <f_dim> <list xs> <list ys> <table f> <nq> query2*)
+                        Output of s1 / s2: the answers of the live objects, then the answers of a fresh object of the same table to the same
+                        primitive calls, made after the session (second half).
+ query : I x | D k x | L x | G j m | K x | F x d | V x d
    I x    Interpolate(x)                      D k x  Derivative(x, k)             L x  Locate(x)
    G j m  Interpolate on the (m+1)-point sub-grid x_j + (x_{j+1}-x_j) k/m of segment j (last point x_{j+1})
    K x    Interpolate and Derivative(.,1) at nextafter(x,-inf), x, nextafter(x,+inf)   (6 numbers)
    F x d  D0 at x-d,x,x+d; D1 at x-d,x,x+d; D2 at x-d,x,x+d; D3(x); D4(x)                (11 numbers)
+   V x d  D1(x), D2(x), D3(x) FIRST, then Interpolate at x-2d, x-d, x, x+d, x+2d           (8 numbers; the derivatives are requested
+          before anything else touches the object, then compared with differences of the returned curve)
  query2: I x y | C i j m   ((m+1)^2 sub-grid of the cell (i,j))
 Output: the numbers in order, or EXIT when the library terminates the process."""
 import math
@@ -26,6 +39,7 @@ EPS = 2.0 ** -53
 TOL = (1e-12, 1e-300)
 RULE = ("a case = one table with its list of queries; non-trivial = 1-D table on a non-uniform grid with at least one interior knot where the slope "
         "limiter is active (dy_i != p_i) and at least one where it is inactive, or a 2-D grid with non-uniform spacing on both axes and >= 2x2 cells; "
+        "a session (s1/s2) = one case, non-trivial when some slot receives two different tables of which at least one is non-trivial by this rule; "
         "distinct by case text")
 LEVEL_TEXT = ("Theorems (Coq, over the reals, unbounded in the table length; all listed in evidence.coverage.theorems). For every table of length N >= 3 with strictly "
               "increasing abscissae: the model of Interpolate returns y_i at x_i; on every segment it stays between y_j and y_{j+1} and is monotone; over a whole run "
@@ -62,7 +76,8 @@ LEVEL_TEXT = ("Theorems (Coq, over the reals, unbounded in the table length; all
 LEVEL_NOTE = ("Coq 8.16.1 kernel; theorems over R use the standard library's real-number axioms and Coquelicot (listed in the evidence); hand-written model "
               "tied by differential correspondence (extraction with ExtrOcamlBasic only); pow(x,k) for k=2,3 is modelled by powerRZ in R and libm pow in the float instance")
 TRUSTED = ["std::pow with exponents 2.0 and 3.0 is modelled by npowi (powerRZ on R, libm pow on doubles)",
-           "every query is made on a copy of the freshly constructed object (the search state machine is property C09), except in the history modes h1 / h2",
+           "every query is made on a copy of the freshly constructed object (the search state machine is property C09), except in the history modes h1 / h2 and the sessions s1 / s2 (live, re-used objects)",
+           "in the session cases the harness re-uses storage (assignment, placement new, delete/new, a function-local object); that the allocator / compiler hand out the same address again is usual, not guaranteed",
            "std::sort / std::unique in the data-table constructor are modelled by their specification (insertion sort with operator<, first element of each run kept)"]
 ASSUMPTIONS = ["the shape theorems assume N >= 3, strictly increasing abscissae, real arithmetic; N = 2 tables have the chord theorem only; the constructor guards are characterised completely (1D) resp. soundly (2D data table); rejected malformed 2D tables are covered by correspondence only"]
 
@@ -626,6 +641,190 @@ def collapse_cases(rng, n):
     return cs
 
 
+# ------------------------------------------------------------------------------------------------ sessions (object re-use)
+def remap(xs, a, b):
+    """the grid xs mapped affinely onto [a, b] (end points exact); None when the spacings are no longer resolved"""
+    x0, x1 = xs[0], xs[-1]
+    v = [a] + [a + (x - x0) * ((b - a) / (x1 - x0)) for x in xs[1:-1]] + [b]
+    return v if all(q - p > 1e-10 * max(abs(p), abs(q)) for p, q in zip(v, v[1:])) else None
+
+
+def variant_grid(rng, xs):
+    """another grid related to xs: the same, refined, coarsened, an independent one on the same interval, a shifted / stretched one"""
+    N = len(xs); a, b = xs[0], xs[-1]; r = rng.random()
+    if r < 0.15: return list(xs), "same-grid"
+    if r < 0.35:
+        v = []
+        for p, q in zip(xs, xs[1:]):
+            v.append(p)
+            if rng.random() < 0.5:
+                m = p + (q - p) * rng.choice([0.5, rng.uniform(0.1, 0.9)])
+                if p < m < q and m - p > 1e-10 * abs(m) and q - m > 1e-10 * abs(m): v.append(m)
+        return v + [b], "refined"
+    if r < 0.55 and N >= 5:
+        keep = [0] + sorted(rng.sample(range(1, N - 1), rng.randint(1, N - 3))) + [N - 1]
+        return [xs[i] for i in keep], "coarsened"
+    if r < 0.85:
+        M = rng.choice([3, 4, 5, 8, 13, 30, 2 * N + 1])
+        if rng.random() < 0.5: g, _k, _d = struct_xs(rng, M)
+        else: g, _k = gen_xs(rng, M)
+        v = remap(g, a, b)
+        if v: return v, "independent"
+        return list(xs), "same-grid"
+    L = b - a; sh = L * rng.uniform(-0.4, 0.4); st = rng.choice([1.0, rng.uniform(0.7, 1.5)])
+    v = [a + sh + (x - a) * st for x in xs]
+    if all(q - p > 1e-10 * max(abs(p), abs(q)) for p, q in zip(v, v[1:])): return v, "shifted"
+    return list(xs), "same-grid"
+
+
+def unit_split(rng, sx, sy):
+    """constructor arguments (xd, fd, xs0, ys0) whose converted table is exactly (sx, sy): powers of two"""
+    xd = fd = -1.0; xs0, ys0 = list(sx), list(sy)
+    if rng.random() < 0.25:
+        xd = 2.0 ** rng.randint(-20, 20); xs0 = [x / xd for x in sx]
+        if scaled(xd, xs0) != list(sx): xd = -1.0; xs0 = list(sx)
+    if rng.random() < 0.25:
+        fd = 2.0 ** rng.randint(-20, 20); ys0 = [y / fd for y in sy]
+        if scaled(fd, ys0) != list(sy): fd = -1.0; ys0 = list(sy)
+    return xd, fd, xs0, ys0
+
+
+def request_at(rng, sx, x, kind=None):
+    """one request at the point x for the (converted) table sx, or None when x is outside what the object answers"""
+    j = locate_ref(sx, x)
+    if j is None: return None
+    kind = kind or rng.choice(["I", "L", "D0", "D1", "D1", "D2", "D3", "D4", "K", "V", "V", "F"])
+    if kind in ("V", "F"):
+        lo, hi = sx[j], sx[j + 1]
+        if not (lo < x < hi): kind = "D" + str(rng.choice([1, 2, 3]))
+        else:
+            d = min(x - lo, hi - x) / rng.choice([2.5, 4.0, 16.0])
+            if not (d > 0 and lo < x - 2 * d and x + 2 * d < hi and x - d < x < x + d): kind = "D" + str(rng.choice([1, 2, 3]))
+            else: return f"{kind} {hx(x)} {hx(d)}"
+    if kind == "K":
+        if locate_ref(sx, math.nextafter(x, -math.inf)) is None or locate_ref(sx, math.nextafter(x, math.inf)) is None: kind = "I"
+    if kind[0] == "D": return f"D {kind[1:]} {hx(x)}"
+    return f"{kind} {hx(x)}"
+
+
+MODES = ["a", "a", "p", "p", "h", "s"]
+
+
+def session_layout(rng, ntab):
+    """segments (kind, mode, slot, src, table index): mostly one slot that receives one table after the other (by assignment, by
+    construction in place, on the heap, as a function-local object), sometimes a second / third slot interleaved, copies, resumptions"""
+    style = rng.choice(["one-slot", "one-slot", "one-slot", "two-slots", "copies", "free"])
+    segs = []; filled = {}; ti = 0
+    mode0 = rng.choice(MODES)
+    while ti < ntab:
+        if style == "one-slot": k = 0
+        elif style == "two-slots": k = ti % 2 if rng.random() < 0.7 else rng.randrange(2)
+        else: k = rng.randrange(3 if style == "free" else 2)
+        mode = mode0 if rng.random() < 0.7 else rng.choice(MODES)
+        segs.append(("A", mode, k, None, ti)); filled[k] = ti; ti += 1
+        if style in ("copies", "free") and rng.random() < 0.5 and filled:
+            src = rng.choice(sorted(filled)); dst = rng.randrange(4)
+            if dst != src: segs.append(("C", None, dst, src, filled[src])); filled[dst] = filled[src]
+        if style != "one-slot" and rng.random() < 0.4 and filled:
+            k2 = rng.choice(sorted(filled)); segs.append(("R", None, k2, None, filled[k2]))
+    return segs, style
+
+
+def session_cases_1d(rng, n):
+    cs = []
+    for _ in range(n):
+        ntab = rng.choice([2, 2, 3, 3, 4, 6])
+        N = rng.choice([3, 4, 5, 7, 9, 12, 20, 40])
+        if rng.random() < 0.5: xs, xk, _dy = struct_xs(rng, N)
+        else: xs, xk = gen_xs(rng, N)
+        tabs = []; kinds = []
+        for t in range(ntab):
+            if t == 0: g, gk = list(xs), "base"
+            else: g, gk = variant_grid(rng, rng.choice([xs, tabs[-1][0]]))
+            if rng.random() < 0.12 and t > 0: ys = list(tabs[-1][1]) if len(tabs[-1][1]) == len(g) else gen_ys(rng, len(g), g)[0]
+            elif rng.random() < 0.3: ys, _k = struct_ys(rng, g)
+            else: ys, _k = gen_ys(rng, len(g), g)
+            tabs.append((g, ys)); kinds.append(gk)
+        lo = max(t[0][0] for t in tabs); hi = min(t[0][-1] for t in tabs)
+        # the pool of request points: few, so that the same argument meets different tables and different objects again and again
+        pool = []
+        for _k in range(rng.choice([1, 2, 3, 5])):
+            w = rng.random(); g = rng.choice(tabs)[0]
+            if w < 0.45 and lo < hi: x = lo + (hi - lo) * rng.random()
+            elif w < 0.7: x = rng.choice(g)
+            elif w < 0.8: x = math.nextafter(rng.choice(g), rng.choice([-math.inf, math.inf]))
+            elif w < 0.9: x = rng.choice([g[0] - 1e-2 * (g[1] - g[0]) * rng.uniform(0, 0.99), g[-1] + 1e-2 * (g[-1] - g[-2]) * rng.uniform(0, 0.99)])
+            else: j = rng.randrange(len(g) - 1); x = g[j] + (g[j + 1] - g[j]) * rng.random()
+            pool.append(x)
+        layout, style = session_layout(rng, ntab)
+        parts = []; last = None
+        for (kind, mode, k, src, ti) in layout:
+            sx, sy = tabs[ti]; qs = []
+            # the request that ended the previous segment, repeated verbatim (same kind where the table allows it) right after the change
+            if last is not None and rng.random() < 0.6:
+                q = request_at(rng, sx, last[1], last[0] if rng.random() < 0.5 else None)
+                if q: qs.append(q)
+            for _q in range(rng.choice([1, 2, 4, 8])):
+                q = request_at(rng, sx, rng.choice(pool))
+                if q: qs.append(q)
+            if not qs: qs.append(f"I {hx(sx[rng.randrange(len(sx))])}")
+            if rng.random() < 0.5:
+                # finish on a derivative / value request at a pool point that the next table may meet first
+                x = rng.choice(pool); q = request_at(rng, sx, x, rng.choice(["D1", "D2", "D3", "V", "F", "I", "L"]))
+                if q: qs.append(q)
+            lq = qs[-1].split(); last = ({"D": "D" + lq[1]}.get(lq[0], lq[0]), float.fromhex(lq[2] if lq[0] == "D" else lq[1]))
+            if kind == "A":
+                xd, fd, xs0, ys0 = unit_split(rng, sx, sy)
+                parts.append(f"A {mode} {k} {hx(xd)} {hx(fd)} {flist(xs0)} {flist(ys0)} {len(qs)} " + " ".join(qs))
+            elif kind == "C": parts.append(f"C {k} {src} {len(qs)} " + " ".join(qs))
+            else: parts.append(f"R {k} {len(qs)} " + " ".join(qs))
+        cs.append(Case(f"s1 {len(parts)} " + " ".join(parts), ("1d", "session", "slots:" + style, "x:" + xk) + tuple(sorted(set("grid:" + g for g in kinds)))))
+    return cs
+
+
+def session_cases_2d(rng, n):
+    cs = []
+    for _ in range(n):
+        ntab = rng.choice([2, 2, 3, 4])
+        xs, _k = gen_xs(rng, rng.choice([2, 3, 4, 6])) if rng.random() < 0.5 else struct_xs(rng, rng.choice([3, 4, 6]))[:2]
+        ys, _k = gen_xs(rng, rng.choice([2, 3, 5])) if rng.random() < 0.5 else struct_xs(rng, rng.choice([3, 5]))[:2]
+        tabs = []
+        for t in range(ntab):
+            gx = list(xs) if t == 0 else variant_grid(rng, xs)[0]; gy = list(ys) if t == 0 else variant_grid(rng, ys)[0]
+            fm = rng.choice(["random", "plateau", "mixedmag", "x+y"]); sc = 10 ** rng.uniform(-20, 20) if rng.random() < 0.3 else 1.0
+            if fm == "random": f = [[sc * rng.gauss(0, 1) for _y in gy] for _x in gx]
+            elif fm == "plateau": f = [[sc * rng.choice([0.0, 1.0, -1.0]) for _y in gy] for _x in gx]
+            elif fm == "mixedmag": f = [[rng.choice([-1, 1]) * 10 ** rng.uniform(-20, 20) for _y in gy] for _x in gx]
+            else: f = [[x + y for y in gy] for x in gx]
+            tabs.append((gx, gy, f))
+        pool = []
+        for _k in range(rng.choice([1, 2, 4])):
+            gx, gy, _f = rng.choice(tabs)
+            def pick(g):
+                w = rng.random()
+                if w < 0.5: j = rng.randrange(len(g) - 1); return g[j] + (g[j + 1] - g[j]) * rng.random()
+                if w < 0.85: return rng.choice(g)
+                return math.nextafter(rng.choice(g), rng.choice([-math.inf, math.inf]))
+            pool.append((pick(gx), pick(gy)))
+        layout, style = session_layout(rng, ntab); parts = []
+        for (kind, mode, k, src, ti) in layout:
+            gx, gy, f = tabs[ti]; qs = []
+            for _q in range(rng.choice([1, 2, 4, 8])):
+                x, y = rng.choice(pool)
+                if locate_ref(gx, x) is not None and locate_ref(gy, y) is not None: qs.append(f"I {hx(x)} {hx(y)}")
+            if rng.random() < 0.5 or not qs: qs.append(f"C {rng.randrange(len(gx) - 1)} {rng.randrange(len(gy) - 1)} 2")
+            if kind == "A":
+                xd = yd = fd = -1.0; x0, y0, f0 = gx, gy, f
+                if rng.random() < 0.25:
+                    k2 = 2.0 ** rng.randint(-12, 12); t0 = [x / k2 for x in gx]
+                    if scaled(k2, t0) == list(gx): xd, x0 = k2, t0
+                parts.append(f"A {mode} {k} {hx(xd)} {hx(yd)} {hx(fd)} {flist(x0)} {flist(y0)} {len(f0)} " + " ".join(flist(r) for r in f0) + f" {len(qs)} " + " ".join(qs))
+            elif kind == "C": parts.append(f"C {k} {src} {len(qs)} " + " ".join(qs))
+            else: parts.append(f"R {k} {len(qs)} " + " ".join(qs))
+        cs.append(Case(f"s2 {len(parts)} " + " ".join(parts), ("2d", "session", "slots:" + style)))
+    return cs
+
+
 def generate(rng, tier):
     big = tier != "quick"; cs = []
     ntab = 6000 if big else 900
@@ -737,6 +936,10 @@ def generate(rng, tier):
     cs += struct_cases_1d(rng, 2500 if big else 280)
     cs += struct_cases_2d(rng, 1500 if big else 150)
     cs += collapse_cases(rng, 3000 if big else 300)
+    # sessions: objects that already answered requests receive other tables (assignment, construction in the same storage, heap
+    # re-allocation, function-local objects), several objects alive at once, copies; the same arguments meet every table
+    cs += session_cases_1d(rng, 3000 if big else 260)
+    cs += session_cases_2d(rng, 800 if big else 70)
     return cs
 
 
@@ -773,8 +976,42 @@ def grid_of_rows(rows):
     return xs, ys, f, True
 
 
+def parse_queries(r, two_d):
+    nq = r.integer(); qs = []
+    for _ in range(nq):
+        q = r.word()
+        if two_d:
+            qs.append(("I", r.num(), r.num()) if q == "I" else ("C", r.integer(), r.integer(), r.integer()))
+        elif q in ("I", "L", "K"): qs.append((q, r.num()))
+        elif q == "D": qs.append((q, r.integer(), r.num()))
+        elif q == "G": qs.append((q, r.integer(), r.integer()))
+        elif q in ("F", "V"): qs.append((q, r.num(), r.num()))
+    return qs
+
+
+def parse_session(r, op):
+    """segments of a session, each with the table its slot holds when the requests are made"""
+    two_d = op == "s2"; slots = {}; segs = []
+    for _ in range(r.integer()):
+        kind = r.word(); g = {"kind": kind, "op": "t2" if two_d else "t1"}
+        if kind == "A":
+            g["mode"] = r.word(); k = r.integer(); t = {}
+            if two_d:
+                t["xd"], t["yd"], t["fd"] = r.num(), r.num(), r.num(); t["xs0"], t["ys0"] = r.list(), r.list(); t["f0"] = r.table()
+            else:
+                t["xd"], t["fd"] = r.num(), r.num(); t["xs0"], t["ys0"] = r.list(), r.list()
+            slots[k] = t
+        elif kind == "C":
+            k = r.integer(); src = r.integer(); slots[k] = slots[src]; g["src"] = src
+        else: k = r.integer()
+        g["slot"] = k; g.update(slots[k]); g["qs"] = parse_queries(r, two_d); segs.append(g)
+    return segs
+
+
 def parse_case(line):
     r = Rd(line); op = r.word(); d = {"op": op}
+    if op in ("s1", "s2"):
+        d["segs"] = parse_session(r, op); return d
     if op in ("t1", "h1"):
         d["xd"], d["fd"] = r.num(), r.num(); d["xs0"], d["ys0"] = r.list(), r.list()
     elif op == "tr":
@@ -786,16 +1023,7 @@ def parse_case(line):
         d["xs0"], d["ys0"], d["f0"], d["rows_ok"] = grid_of_rows(rows)
     else:
         d["xd"], d["yd"], d["fd"] = r.num(), r.num(), r.num(); d["xs0"], d["ys0"] = r.list(), r.list(); d["f0"] = r.table()
-    nq = r.integer(); qs = []
-    for _ in range(nq):
-        q = r.word()
-        if op in OPS2:
-            qs.append(("I", r.num(), r.num()) if q == "I" else ("C", r.integer(), r.integer(), r.integer()))
-        elif q in ("I", "L", "K"): qs.append((q, r.num()))
-        elif q == "D": qs.append((q, r.integer(), r.num()))
-        elif q == "G": qs.append((q, r.integer(), r.integer()))
-        elif q == "F": qs.append((q, r.num(), r.num()))
-    d["qs"] = qs
+    d["qs"] = parse_queries(r, op in OPS2)
     return d
 
 
@@ -826,6 +1054,7 @@ def nout(q):
     if q[0] == "G": return q[2] + 1
     if q[0] == "K": return 6
     if q[0] == "F": return 11
+    if q[0] == "V": return 8
     return (q[3] + 1) ** 2
 
 
@@ -834,15 +1063,8 @@ def is_int_tok(t):
 
 
 # ----------------------------------------------------------------------------------------------- comparison
-def compare(c, io, mo, tol):
-    """token-wise comparison with the natural absolute scale of each output (a harmless rewrite of the polynomial evaluation
-    changes a value by a few ulp of its largest term, not of the possibly cancelling result): 1e-11 of
-    |y_j|+|y_{j+1}-y_j| for values, of 40|s_j|, 54|s_j|/h_j, 36|s_j|/h_j^2 for the derivatives of order 1, 2, 3."""
-    if io == mo: return True, True, ""
-    a, b = io.split(), mo.split()
-    if len(a) != len(b): return False, False, f"shape: impl has {len(a)} tokens, model {len(b)}"
-    try: d = parse_case(c.line)
-    except Exception: return False, False, "unparsable case"
+def scales_of(d):
+    """natural absolute scale of every output number of one table + query list (None: malformed 1-D table)"""
     scales = []
     if d["op"] in OPS2:
         xs, ys = scaled(d["xd"], d["xs0"]), scaled(d["yd"], d["ys0"]); f = [scaled(d["fd"], row) for row in d["f0"]]
@@ -850,7 +1072,7 @@ def compare(c, io, mo, tol):
         for q in d["qs"]: scales += [mx] * nout(q)
     else:
         xs, ys = scaled(d["xd"], d["xs0"]), scaled(d["fd"], d["ys0"])
-        if not table_ok(d["xs0"], d["ys0"], d["xd"]): return False, False, "outputs differ on a malformed table"
+        if not table_ok(d["xs0"], d["ys0"], d["xd"]): return None
         h, s = steffen_ref(xs, ys)
         def sc(x, k):
             j = locate_ref(xs, x)
@@ -868,6 +1090,30 @@ def compare(c, io, mo, tol):
             elif q[0] == "F":
                 x, dd = q[1], q[2]
                 scales += [sc(x, k) for k in (0, 0, 0, 1, 1, 1, 2, 2, 2, 3, 4)]
+            elif q[0] == "V":
+                scales += [sc(q[1], k) for k in (1, 2, 3, 0, 0, 0, 0, 0)]
+    return scales
+
+
+def compare(c, io, mo, tol):
+    """token-wise comparison with the natural absolute scale of each output (a harmless rewrite of the polynomial evaluation
+    changes a value by a few ulp of its largest term, not of the possibly cancelling result): 1e-11 of
+    |y_j|+|y_{j+1}-y_j| for values, of 40|s_j|, 54|s_j|/h_j, 36|s_j|/h_j^2 for the derivatives of order 1, 2, 3."""
+    if io == mo: return True, True, ""
+    a, b = io.split(), mo.split()
+    if len(a) != len(b): return False, False, f"shape: impl has {len(a)} tokens, model {len(b)}"
+    try: d = parse_case(c.line)
+    except Exception: return False, False, "unparsable case"
+    if d["op"] in ("s1", "s2"):
+        scales = []
+        for g in d["segs"]:
+            sg = scales_of(g)
+            if sg is None: return False, False, "outputs differ on a malformed table"
+            scales += sg
+        scales = scales + scales
+    else:
+        scales = scales_of(d)
+        if scales is None: return False, False, "outputs differ on a malformed table"
     if len(scales) != len(a): return False, False, "output shape does not match the queries"
     for k, (x, y) in enumerate(zip(a, b)):
         if x == y: continue
@@ -1018,6 +1264,26 @@ def pred_1d(c, d, vals):
                 if not (e2 <= t2): out.append(("1d:deriv2", f"Derivative({x!r},2) = {d20!r} is not the derivative of Derivative(.,1) (central difference {((d1p - d1m) / two_d)!r}; off by {e2:.3g}, allowed {t2:.3g})"))
                 e3 = abs((d2p - d2m) / two_d - d3); t3 = 2 * 64 * EPS * 54 * S / hj / two_d + 64 * EPS * 36 * S / hj ** 2 + 1e-300
                 if not (e3 <= t3): out.append(("1d:deriv3", f"Derivative({x!r},3) = {d3!r} is not the derivative of Derivative(.,2) (central difference {((d2p - d2m) / two_d)!r}; off by {e3:.3g}, allowed {t3:.3g})"))
+        elif q[0] == "V":
+            # the three derivatives (requested before anything else) against divided differences of the RETURNED curve on the
+            # stencil x-2d .. x+2d, which lies inside one segment: the formulas are exact for cubics.  Every value carries the
+            # rounding slack of its segment and the effect of the rounded stencil point (|f'| <= 3|s|).
+            x, dd = q[1], q[2]; j = seg_of(x)
+            d1, d2, d3, fm2, fm1, f0, fp1, fp2 = o
+            pts = [x - 2.0 * dd, x - dd, x, x + dd, x + 2.0 * dd]
+            if j is None or not dd > 0 or any(seg_of(pt) != j or not (xs[j] <= pt <= xs[j + 1]) for pt in pts): continue
+            for pt, v in zip(pts, o[3:]): check_value(pt, v, "V")
+            S = abs(s[j]); hj = h[j]
+            ev = seg_slack(ys, j) + 3 * S * 2 * math.ulp(max(abs(pt) for pt in pts))
+            g1 = (fm2 - 8 * fm1 + 8 * fp1 - fp2) / (12 * dd); t1 = 18 * ev / (12 * dd) + 64 * EPS * 38 * S + 1e-300
+            g2 = (-fm2 + 16 * fm1 - 30 * f0 + 16 * fp1 - fp2) / (12 * dd * dd); t2 = 64 * ev / (12 * dd * dd) + 64 * EPS * 54 * S / hj + 1e-300
+            g3 = (fp2 - 2 * fp1 + 2 * fm1 - fm2) / (2 * dd ** 3); t3 = 6 * ev / (2 * dd ** 3) + 64 * EPS * 36 * S / hj ** 2 + 1e-300
+            for kk, dv, gv, tv in ((1, d1, g1, t1), (2, d2, g2, t2), (3, d3, g3, t3)):
+                if not (abs(dv - gv) <= tv):
+                    out.append((f"1d:deriv{kk}", f"Derivative({x!r},{kk}) = {dv!r} is not the derivative of the returned curve (divided difference of Interpolate on x-2d..x+2d, d = {dd!r}: {gv!r}; off by {abs(dv - gv):.3g}, allowed {tv:.3g})"))
+            sl1 = 64 * EPS * 38 * S + 1e-300
+            if d1 * s[j] < -sl1 * S or abs(d1) > 3 * S + sl1:
+                out.append(("1d:deriv-sign", f"Derivative({x!r},1) = {d1!r} but the secant slope of segment {j} is {s[j]!r}: not monotone"))
     return out
 
 
@@ -1080,6 +1346,7 @@ def pred_2d(c, d, vals):
 
 def expected_exit(d):
     """does the request terminate the process by the documented guards? (independent of the model)"""
+    if d["op"] in ("s1", "s2"): return any(expected_exit(g) for g in d["segs"])
     if d["op"] == "tr" and not d["rows_ok"]: return True
     if d["op"] == "t3" and not d["rows_ok"]: return True
     if d["op"] in OPS2:
@@ -1093,9 +1360,40 @@ def expected_exit(d):
     if not table_ok(d["xs0"], d["ys0"], d["xd"]): return True
     xs = scaled(d["xd"], d["xs0"])
     for q in d["qs"]:
-        x = q[1] if q[0] in ("I", "L", "K") else (q[2] if q[0] == "D" else None)
+        x = q[1] if q[0] in ("I", "L", "K", "V") else (q[2] if q[0] == "D" else None)
         if x is not None and locate_ref(xs, x) is None: return True
     return False
+
+
+def describe_segment(g):
+    how = {"A": "a new table put into the slot (mode %s)" % g.get("mode"), "C": "the object of slot %s copy-assigned" % g.get("src"), "R": "the slot resumed"}[g["kind"]]
+    return f"slot {g['slot']}, {how}, N = {len(g['xs0'])}"
+
+
+def pred_session(c, d, vals):
+    """sessions: (1) every answer of a re-used object equals, bit for bit, the answer a fresh object of the same table gives to the
+    same call (the classes are deterministic functions of the table; the only state a request leaves behind, the search start of
+    Locate, does not change which segment is found); (2) all clauses of the property on the answers of the LIVE objects, with the
+    table the slot holds at that moment."""
+    out = []; segs = d["segs"]; n = sum(nout(q) for g in segs for q in g["qs"])
+    if len(vals) != 2 * n: return [(d["op"] + ":shape", f"{len(vals)} output numbers, {2 * n} expected")]
+    live, fresh = vals[:n], vals[n:]; k = 0
+    for gi, g in enumerate(segs):
+        m = sum(nout(q) for q in g["qs"]); lv = live[k:k + m]; fv = fresh[k:k + m]
+        t = 0; bad = False
+        for q in g["qs"]:
+            w = nout(q)
+            for u in range(w):
+                a, b = lv[t + u], fv[t + u]
+                if not (a == b or (isinstance(a, float) and isinstance(b, float) and math.isnan(a) and math.isnan(b))):
+                    out.append((d["op"] + ":reuse", f"segment {gi} ({describe_segment(g)}): request {' '.join(str(v) for v in q)}, output {u}: the live object answers {a!r}, "
+                                                   f"a fresh object of the same table answers {b!r} to the same call")); bad = True; break
+            if bad: break
+            t += w
+        sub = pred_2d(c, g, lv) if d["op"] == "s2" else pred_1d(c, g, lv)
+        out += [(sig, f"segment {gi} ({describe_segment(g)}): {msg}") for sig, msg in sub]
+        k += m
+    return out
 
 
 def predicates(c, io):
@@ -1105,12 +1403,23 @@ def predicates(c, io):
         return [] if ee else [(d["op"] + ":exit", "a valid table and query points inside the domain (or its 1 % tolerance) terminated the process")]
     if ee: return [(d["op"] + ":no-exit", "a malformed table or a query point outside the 1 % tolerance was accepted")]
     vals = [int(t) if is_int_tok(t) else (math.nan if t == "nan" else math.inf if t == "inf" else -math.inf if t == "-inf" else float.fromhex(t)) for t in io.split()]
+    if d["op"] in ("s1", "s2"): return pred_session(c, d, vals)
     return pred_2d(c, d, vals) if d["op"] in OPS2 else pred_1d(c, d, vals)
 
 
 def nontrivial(c, io):
     if io.startswith(("EXIT", "CRASH")): return False
     d = parse_case(c.line)
+    if d["op"] in ("s1", "s2"):
+        # a slot that receives two different tables, at least one of them non-trivial by the single-table rule
+        per = {}
+        for g in d["segs"]:
+            if g["kind"] == "A": per.setdefault(g["slot"], []).append(g)
+        return any(len(v) >= 2 and any(a["xs0"] != b["xs0"] or a["ys0"] != b["ys0"] for a, b in zip(v, v[1:])) and any(nontrivial_table(a) for a in v) for v in per.values())
+    return nontrivial_table(d)
+
+
+def nontrivial_table(d):
     if d["op"] in OPS2:
         xs, ys = d["xs0"], d["ys0"]
         nu = lambda v: len(v) >= 3 and any(abs((v[i + 2] - v[i + 1]) - (v[i + 1] - v[i])) > 1e-9 * (v[i + 2] - v[i]) for i in range(len(v) - 2))
